@@ -219,6 +219,7 @@ pub fn programs(tier: Tier) -> ProgramSet {
                     }));
                 }
             }
+            devs.extend(crate::devs::rich_generic_devs(false));
             let dis: Vec<String> = (0..n).filter(|i| mask & (1 << i) != 0).map(|i| i.to_string()).collect();
             let label = format!("B{} disabled={{{}}}", n, dis.join(","));
             let (specs, ex) = enumerate(&base, &label, &devs, k_here, &in_domain);
@@ -265,7 +266,7 @@ pub fn render(spec: &EnumSpec) -> String {
         o.push_str(&format!("const {}: {} = {};\n", c, if !has_int_repr(spec) { "isize".to_string() } else { r.clone() }, disc_value(&c).unwrap()));
     }
     o.push_str(&render_enum(spec, &["Debug", "strum::FromRepr"]));
-    o.push_str(&format!("type EC = {};\n", spec.name));
+    o.push_str(&format!("type EC = {}{};\n", spec.name, spec.generics_inst()));
     o.push_str(&render_vidx(spec, "EC", "vidx"));
     let fieldless = spec.variants.iter().all(|v| v.kind.is_unit());
     // discriminants as the compiler sees them
